@@ -51,6 +51,7 @@ type ASpec struct {
 	Nodes map[string]*ANode
 	AEB   bool
 	AEN   string
+	EN    string // the spec's error node ("": the node called "error")
 }
 
 // ---------------------------------------------------------------- rendering: ECMAScript
@@ -202,7 +203,7 @@ func actionSource(ops []Op) *core.ActionSource {
 
 // Build makes an uncompiled core.Spec.
 func Build(a *ASpec) *core.Spec {
-	s := &core.Spec{Name: "verif", Nodes: map[string]*core.Node{}, ActionErrorBranches: a.AEB, ActionErrorNode: a.AEN}
+	s := &core.Spec{Name: "verif", Nodes: map[string]*core.Node{}, ActionErrorBranches: a.AEB, ActionErrorNode: a.AEN, ErrorNode: a.EN}
 	for name, an := range a.Nodes {
 		n := &core.Node{}
 		if an.Act != nil {
@@ -306,10 +307,14 @@ func EncSpec(a *ASpec) interface{} {
 	for name, an := range a.Nodes {
 		nodes[name] = EncNode(an)
 	}
-	if _, have := nodes["error"]; !have {
-		nodes["error"] = EncNode(&ANode{NoBr: true})
+	en := a.EN
+	if en == "" {
+		en = "error"
 	}
-	return O{"nodes": nodes, "aeb": a.AEB, "aen": a.AEN}
+	if _, have := nodes[en]; !have {
+		nodes[en] = EncNode(&ANode{NoBr: true})
+	}
+	return O{"nodes": nodes, "aeb": a.AEB, "aen": a.AEN, "en": a.EN}
 }
 
 func EncState(st *core.State) interface{} {
